@@ -23,7 +23,8 @@ ID = "C17"
 LEVEL = "exploration"
 RULE = (
     "Hypothesis: canonical program (C01 generator) x subset of eligible functions marked x marker style/case/spacing/"
-    "position x decoys on other functions; two renderings of one AST are analysed. Non-trivial = at least one marked "
+    "position x decoys on other functions (JavaScript / TypeScript also with the keyword and the name on separate lines); two renderings of one AST are analysed, "
+    "as strings through scan_file or as files through scan_path (a third of the files spell every marker with one non-lower-case word). Non-trivial = at least one marked "
     "and one unmarked function, or at least one decoy; distinct by digest of the marked program text"
 )
 ASSUMPTIONS = [
